@@ -25,6 +25,7 @@ Theorem C28_accepted_only_with_matching_fact : forall cfg facts now r id,
     mem_bytes B"host" (signed_header_names (p_signed_headers p)) = true /\
     (forall k vs, In (k, vs) (r_headers r) -> must_be_signed (to_lower k) = true ->
        mem_bytes (to_lower k) (signed_header_names (p_signed_headers p)) = true) /\
+    (needs_body_hash r (p_presigned p) = true -> r_body_err r = false) /\
     In f facts /\
     f_key f = {| k_secret := secret; k_date := date; k_region := c_region cfg; k_service := B"s3"; k_term := B"aws4_request" |} /\
     f_msg f = {| s_alg := p_alg p; s_ts := p_timestamp p;
@@ -38,7 +39,7 @@ Print Assumptions C28_accepted_only_with_matching_fact.
 Theorem C28_no_fact_no_access : forall cfg now r id, middleware cfg [] now r <> Accepted id.
 Proof.
   intros cfg now r id H. apply accepted_sound in H.
-  destruct H as (? & ? & ? & ? & ? & f & H). destruct H as (_ & _ & _ & _ & _ & _ & _ & _ & _ & _ & _ & Hin & _). exact Hin.
+  destruct H as (? & ? & ? & ? & ? & f & H). destruct H as (_ & _ & _ & _ & _ & _ & _ & _ & _ & _ & _ & _ & Hin & _). exact Hin.
 Qed.
 Print Assumptions C28_no_fact_no_access.
 
@@ -117,7 +118,11 @@ Theorem C28_altered_request_rejected : forall cfg now r id k0 alg0 ts0 sc0 mac0 
       = collect_signed_headers (r_host r0) (r_headers r0) names0 /\
     payload_line r (p_presigned p) = payload_line r0 pre0 /\
     (forall k vs, In (k, vs) (r_headers r) -> must_be_signed (to_lower k) = true ->
-       mem_bytes (to_lower k) (signed_header_names (p_signed_headers p)) = true).
+       mem_bytes (to_lower k) (signed_header_names (p_signed_headers p)) = true) /\
+    (* the body, when it is signed (header mode, no payload literal), was received completely and its SHA-256 is
+       the one that was signed — whatever its length, below, at or above the 10,000,000-byte in-memory limit *)
+    (needs_body_hash r (p_presigned p) = true -> r_body_err r = false) /\
+    (needs_body_hash r (p_presigned p) = true -> needs_body_hash r0 pre0 = true -> r_payload r = r_payload r0).
 Proof. exact altered_request_rejected. Qed.
 Print Assumptions C28_altered_request_rejected.
 
@@ -143,6 +148,19 @@ Theorem C28_signed_header_values_up_to_trimall : forall host h h' names,
 Proof. exact header_block_up_to_trimall. Qed.
 Print Assumptions C28_signed_header_values_up_to_trimall.
 
+(* 10. the payload line of a header-signed request without a payload literal is the SHA-256 of the bytes RECEIVED
+   as body (r_payload, by the protocol of the model the hash of what r.Body delivers), for EVERY body length: the
+   in-memory / spooled split of generateHashedPayload at max_memory_cache_size = 10,000,000 bytes does not enter
+   the result, and the declared x-amz-content-sha256 is never used in its place *)
+Theorem C28_payload_line_is_hash_of_received_bytes : forall m h p q hs received_hash len err,
+  mem_bytes (hget sha_hdr hs) payload_literals = false ->
+  payload_line {| r_method := m; r_host := h; r_path := p; r_query := q; r_headers := hs;
+                  r_payload := received_hash; r_body_len := len; r_body_err := err |} false = received_hash.
+Proof.
+  intros m h p q hs rh len err H. apply payload_line_hashed. unfold needs_body_hash. cbn [r_headers]. rewrite H. reflexivity.
+Qed.
+Print Assumptions C28_payload_line_is_hash_of_received_bytes.
+
 (* ---- non-vacuity: a signed request is accepted, its mutants are not ---- *)
 Definition ex_cfg : config := {| c_region := B"eu-central-1"; c_creds := [(B"AK", B"secret")] |}.
 Definition ex_hdrs (date : bytes) : header_map :=
@@ -150,26 +168,45 @@ Definition ex_hdrs (date : bytes) : header_map :=
    (B"X-Amz-Content-Sha256", [B"UNSIGNED-PAYLOAD"]); (B"X-Amz-Date", [date])].
 Definition ex_r0 : request :=
   {| r_method := B"GET"; r_host := B"s3.localhost"; r_path := B"/bucket/a%20b"; r_query := B"prefix=a%2Fb";
-     r_headers := ex_hdrs B"20260921T120000Z"; r_payload := B"e3b0" |}.
+     r_headers := ex_hdrs B"20260921T120000Z"; r_payload := B"e3b0"; r_body_len := 0; r_body_err := false |}.
 Definition ex_names : list bytes := [B"host"; B"x-amz-content-sha256"; B"x-amz-date"].
 Definition ex_fact : fact :=
   {| f_key := {| k_secret := B"secret"; k_date := B"20260921"; k_region := B"eu-central-1"; k_service := B"s3"; k_term := B"aws4_request" |};
      f_msg := {| s_alg := alg_v4; s_ts := B"20260921T120000Z"; s_scope := B"20260921/eu-central-1/s3/aws4_request";
                  s_cr := canonical_request ex_r0 B"/bucket/a%20b" ex_names false |};
      f_mac := B"ab" |}.
+Definition ex_rh : request :=
+  {| r_method := B"PUT"; r_host := B"s3.localhost"; r_path := B"/bucket/big"; r_query := [];
+     r_headers := [(B"Authorization", [B"AWS4-HMAC-SHA256 Credential=AK/20260921/eu-central-1/s3/aws4_request, SignedHeaders=host;x-amz-content-sha256;x-amz-date, Signature=cd"]);
+                   (B"X-Amz-Content-Sha256", [B"cafe"]); (B"X-Amz-Date", [B"20260921T120000Z"])];
+     r_payload := B"cafe"; r_body_len := 10000001; r_body_err := false |}.
+Definition ex_fact_h : fact :=
+  {| f_key := f_key ex_fact;
+     f_msg := {| s_alg := alg_v4; s_ts := B"20260921T120000Z"; s_scope := B"20260921/eu-central-1/s3/aws4_request";
+                 s_cr := canonical_request ex_rh B"/bucket/big" ex_names false |};
+     f_mac := B"cd" |}.
 Definition ex_now : Z := (1789992000 * 1000000000 + 60 * 1000000000)%Z.
 Example C28_ex_original_accepted : middleware ex_cfg [ex_fact] ex_now ex_r0 = Accepted B"AK".
 Proof. vm_compute. reflexivity. Qed.
 Example C28_ex_mutants_rejected :
   middleware ex_cfg [ex_fact] ex_now
-    {| r_method := B"DELETE"; r_host := r_host ex_r0; r_path := r_path ex_r0; r_query := r_query ex_r0; r_headers := r_headers ex_r0; r_payload := r_payload ex_r0 |} = Rejected /\
+    {| r_method := B"DELETE"; r_host := r_host ex_r0; r_path := r_path ex_r0; r_query := r_query ex_r0; r_headers := r_headers ex_r0; r_payload := r_payload ex_r0; r_body_len := 0; r_body_err := false |} = Rejected /\
   middleware ex_cfg [ex_fact] ex_now
-    {| r_method := B"GET"; r_host := r_host ex_r0; r_path := B"/bucket/a%20c"; r_query := r_query ex_r0; r_headers := r_headers ex_r0; r_payload := r_payload ex_r0 |} = Rejected /\
+    {| r_method := B"GET"; r_host := r_host ex_r0; r_path := B"/bucket/a%20c"; r_query := r_query ex_r0; r_headers := r_headers ex_r0; r_payload := r_payload ex_r0; r_body_len := 0; r_body_err := false |} = Rejected /\
   middleware ex_cfg [ex_fact] ex_now
-    {| r_method := B"GET"; r_host := r_host ex_r0; r_path := r_path ex_r0; r_query := B"prefix=a%2Fb&versionId=1"; r_headers := r_headers ex_r0; r_payload := r_payload ex_r0 |} = Rejected /\
+    {| r_method := B"GET"; r_host := r_host ex_r0; r_path := r_path ex_r0; r_query := B"prefix=a%2Fb&versionId=1"; r_headers := r_headers ex_r0; r_payload := r_payload ex_r0; r_body_len := 0; r_body_err := false |} = Rejected /\
   middleware ex_cfg [ex_fact] ex_now
     {| r_method := B"GET"; r_host := r_host ex_r0; r_path := r_path ex_r0; r_query := r_query ex_r0;
-       r_headers := (B"X-Amz-Acl", [B"public-read"]) :: r_headers ex_r0; r_payload := r_payload ex_r0 |} = Rejected /\
+       r_headers := (B"X-Amz-Acl", [B"public-read"]) :: r_headers ex_r0; r_payload := r_payload ex_r0; r_body_len := 0; r_body_err := false |} = Rejected /\
   middleware ex_cfg [ex_fact] (ex_now + 241 * 1000000000)%Z ex_r0 = Rejected /\
+  (* header mode with a real payload hash: a 10,000,001-byte body whose received hash is not the signed one, and a
+     body that ends with an error, are rejected although the declared x-amz-content-sha256 is the signed value *)
+  middleware ex_cfg [ex_fact_h] ex_now ex_rh = Accepted B"AK" /\
+  middleware ex_cfg [ex_fact_h] ex_now
+    {| r_method := r_method ex_rh; r_host := r_host ex_rh; r_path := r_path ex_rh; r_query := r_query ex_rh; r_headers := r_headers ex_rh;
+       r_payload := B"beef"; r_body_len := 10000001; r_body_err := false |} = Rejected /\
+  middleware ex_cfg [ex_fact_h] ex_now
+    {| r_method := r_method ex_rh; r_host := r_host ex_rh; r_path := r_path ex_rh; r_query := r_query ex_rh; r_headers := r_headers ex_rh;
+       r_payload := r_payload ex_rh; r_body_len := 10000000; r_body_err := true |} = Rejected /\
   middleware {| c_region := B"us-east-1"; c_creds := c_creds ex_cfg |} [ex_fact] ex_now ex_r0 = Rejected.
 Proof. vm_compute. repeat split; reflexivity. Qed.
